@@ -1,9 +1,175 @@
 import LinfaSpec.Model.Proto
+import LinfaSpec.Model.Scalar
+import LinfaSpec.Model.Logistic
+import LinfaSpec.Model.Glm
 
 namespace LinfaSpec.Drv.C12
-open LinfaSpec.Proto
+open LinfaSpec.Proto LinfaSpec.Logistic
 
-/-- stub: replaced when the property's model lands -/
-def handle (_toks : List String) : String := "bad-op"
+def tf (x : Float) : String := "~" ++ showF64c x
+def tfs (xs : List Float) : String := showList tf xs
+def tfs2 (xs : List (List Float)) : String := showList2 tf xs
+
+/-- the literal `1e-15` of `log_sum_exp`, the literal `1e-6` of the power dispatch -/
+def eps15 : Float := 1e-15
+def tol6 : Float := 1e-6
+
+def showInt (x : Float) : String := toString x.toInt64
+
+def handleLabel2 (toks : List String) : Option String := do
+  let y ← argNats toks "y"
+  match labelClasses (α := Float) y with
+  | .error .tooMany => some "err TooManyClasses"
+  | .error .tooFew => some "err TooFewClasses"
+  | .ok r => some s!"ok pos={r.pos} neg={r.neg} t={showList showInt r.target}"
+
+def handleLabelM (toks : List String) : Option String := do
+  let y ← argNats toks "y"
+  let (cl, oh) := labelClassesMulti (α := Float) y
+  some s!"ok classes={showList toString cl} onehot={showList2 showInt oh}"
+
+def handleSfn (toks : List String) : Option String := do
+  let f ← arg toks "f"; let v ← argF64s toks "v"
+  match f with
+  | "logistic" => some ("ok " ++ tfs (v.map logistic))
+  | "loglogistic" => some ("ok " ++ tfs (v.map logLogistic))
+  | _ => none
+
+def handleSoftmax (toks : List String) : Option String := do
+  let v ← argF64s toks "v"
+  some ("ok " ++ tfs (softmax v))
+
+def handleLse (toks : List String) : Option String := do
+  let m ← argF64s2 toks "m"
+  some ("ok " ++ tfs (logSumExpRows eps15 m))
+
+def handleLoss (toks : List String) : Option String := do
+  let nf ← argNat toks "nf"; let x ← argF64s2 toks "x"; let y ← argF64s toks "y"
+  let alpha ← argF64 toks "alpha"; let w ← argF64s toks "w"
+  match logisticLoss nf x y alpha w with
+  | none => some "panic"
+  | some l => some ("ok " ++ tf l)
+
+def handleGrad (toks : List String) : Option String := do
+  let nf ← argNat toks "nf"; let x ← argF64s2 toks "x"; let y ← argF64s toks "y"
+  let alpha ← argF64 toks "alpha"; let w ← argF64s toks "w"
+  match logisticGrad nf x y alpha w with
+  | none => some "panic"
+  | some g => some ("ok " ++ tfs g)
+
+def handleMLoss (toks : List String) : Option String := do
+  let nf ← argNat toks "nf"; let k ← argNat toks "k"
+  let x ← argF64s2 toks "x"; let y ← argF64s2 toks "y"
+  let alpha ← argF64 toks "alpha"; let w ← argF64s2 toks "w"
+  match multiLogisticLoss eps15 nf k x y alpha w with
+  | none => some "panic"
+  | some l => some ("ok " ++ tf l)
+
+def handleMGrad (toks : List String) : Option String := do
+  let nf ← argNat toks "nf"; let k ← argNat toks "k"
+  let x ← argF64s2 toks "x"; let y ← argF64s2 toks "y"
+  let alpha ← argF64 toks "alpha"; let w ← argF64s2 toks "w"
+  match multiLogisticGrad eps15 nf k x y alpha w with
+  | none => some "panic"
+  | some g => some ("ok " ++ tfs2 g)
+
+def minList (l : List Float) : Float := l.foldl (fun a b => if b < a then b else a) (1.0 / 0.0)
+
+def handlePredict2 (toks : List String) : Option String := do
+  let x ← argF64s2 toks "x"; let w ← argF64s toks "w"
+  let b ← argF64 toks "b"; let thr ← argF64 toks "thr"
+  let p := predictProba x w b
+  let cls := predictBinary x w b thr (1 : Nat) 0
+  let margin := minList (p.map fun q => (q - thr).abs)
+  some s!"ok p={tfs p} cls={showList toString cls} margin={tf margin}"
+
+/-- gap between the largest and the second largest entry (first maximum removed) -/
+def topGap (row : List Float) : Float :=
+  let i := argmax row
+  let m := row.getD i 0
+  let rest := (row.take i) ++ (row.drop (i + 1))
+  minList (rest.map fun v => m - v)
+
+def handlePredictM (toks : List String) : Option String := do
+  let k ← argNat toks "k"
+  let x ← argF64s2 toks "x"; let w ← argF64s2 toks "w"; let b ← argF64s toks "b"
+  let p := predictProbaMulti k x w b
+  let cls := predictMulti k x w b (List.range k)
+  let margin := minList ((scores k x w b).map topGap)
+  some s!"ok p={tfs2 p} cls={showList toString cls} margin={tf margin}"
+
+/-! GLM -/
+open LinfaSpec.Glm in
+def parseLink (toks : List String) : Option Glm.Link := do
+  let l ← argNat toks "l"
+  match l with
+  | 0 => some .identity
+  | 1 => some .log
+  | 2 => some .logit
+  | _ => none
+
+def handleInRange (toks : List String) : Option String := do
+  let power ← argF64 toks "power"; let y ← argF64s toks "y"
+  match Glm.inRange power y with
+  | none => some "err InvalidTweediePower"
+  | some b => some s!"ok {b}"
+
+def handleDev (toks : List String) : Option String := do
+  let power ← argF64 toks "power"; let y ← argF64s toks "y"; let yp ← argF64s toks "yp"
+  match Glm.deviance Float.pow tol6 power y yp with
+  | none => some "err InvalidTweediePower"
+  | some d => some ("ok " ++ tf d)
+
+def handleDDev (toks : List String) : Option String := do
+  let power ← argF64 toks "power"; let y ← argF64s toks "y"; let yp ← argF64s toks "yp"
+  some ("ok " ++ tfs (List.zipWith (Glm.unitDevianceDeriv Float.pow power) y yp))
+
+def handleLink (toks : List String) : Option String := do
+  let l ← parseLink toks; let v ← argF64s toks "v"
+  some s!"ok inv={tfs (v.map (Glm.linkInverse l))} der={tfs (v.map (Glm.linkInverseDeriv l))}"
+
+def handleGCost (toks : List String) : Option String := do
+  let l ← parseLink toks
+  let power ← argF64 toks "power"; let alpha ← argF64 toks "alpha"
+  let icpt ← argNat toks "icpt"
+  let x ← argF64s2 toks "x"; let y ← argF64s toks "y"; let p ← argF64s toks "p"
+  match Glm.cost Float.pow tol6 power alpha l (icpt == 1) x y p with
+  | none => some "err InvalidTweediePower"
+  | some c => some ("ok " ++ tf c)
+
+def handleGGrad (toks : List String) : Option String := do
+  let l ← parseLink toks
+  let power ← argF64 toks "power"; let alpha ← argF64 toks "alpha"
+  let icpt ← argNat toks "icpt"; let nf ← argNat toks "nf"
+  let x ← argF64s2 toks "x"; let y ← argF64s toks "y"; let p ← argF64s toks "p"
+  some ("ok " ++ tfs (Glm.gradient Float.pow power alpha l (icpt == 1) nf x y p))
+
+def handleGPredict (toks : List String) : Option String := do
+  let l ← parseLink toks
+  let x ← argF64s2 toks "x"; let c ← argF64s toks "coef"; let b ← argF64 toks "b"
+  some ("ok " ++ tfs (Glm.predict l x c b))
+
+def handle (toks : List String) : String :=
+  let r := match toks with
+    | "label2" :: rest => handleLabel2 rest
+    | "labelm" :: rest => handleLabelM rest
+    | "sfn" :: rest => handleSfn rest
+    | "softmax" :: rest => handleSoftmax rest
+    | "lse" :: rest => handleLse rest
+    | "loss" :: rest => handleLoss rest
+    | "grad" :: rest => handleGrad rest
+    | "mloss" :: rest => handleMLoss rest
+    | "mgrad" :: rest => handleMGrad rest
+    | "predict2" :: rest => handlePredict2 rest
+    | "predictm" :: rest => handlePredictM rest
+    | "inrange" :: rest => handleInRange rest
+    | "dev" :: rest => handleDev rest
+    | "ddev" :: rest => handleDDev rest
+    | "link" :: rest => handleLink rest
+    | "gcost" :: rest => handleGCost rest
+    | "ggrad" :: rest => handleGGrad rest
+    | "gpredict" :: rest => handleGPredict rest
+    | _ => none
+  r.getD "bad-op"
 
 end LinfaSpec.Drv.C12
